@@ -53,11 +53,24 @@ async fn canceled_stalling(ctx: &ctx::Ctx, ms: u64) {
     })
     .await
 }
-async fn wait_cancel(ctx: &ctx::Ctx, stall: bool) {
+/// "Cancellation reaches every descendant context": the waiting task waits on the scope's context itself or on a descendant of it
+/// (a child with a far deadline, a grandchild with a looser one, the context of a nested scope) - Scope.tla treats them alike.
+async fn wait_cancel(ctx: &ctx::Ctx, stall: bool, via: u64) {
+    let hour = time::Duration::seconds(3600);
     if stall {
-        canceled_stalling(ctx, 2).await
-    } else {
-        ctx.canceled().await
+        return canceled_stalling(ctx, 2).await;
+    }
+    match via % 4 {
+        0 => ctx.canceled().await,
+        1 => ctx.with_timeout(hour).canceled().await,
+        2 => ctx.with_timeout(hour).with_timeout(hour * 2).canceled().await,
+        _ => {
+            let _: Result<(), String> = scope::run!(ctx, |c, _s| async move {
+                c.canceled().await;
+                Ok(())
+            })
+            .await;
+        }
     }
 }
 
@@ -90,12 +103,12 @@ fn task<'env>(ctx: &'env ctx::Ctx, s: &'env scope::Scope<'env, String>, prog: Ar
             "e2" => Err("e2".to_string()),
             "panic" => panic!("task panic"),
             "wait_ok" => {
-                wait_cancel(ctx, seed % 5 == 0).await;
+                wait_cancel(ctx, seed % 5 == 0, seed / 5 + i as u64).await;
                 yields(r.gen_range(0..3)).await;
                 Ok(())
             }
             "wait_e3" => {
-                wait_cancel(ctx, seed % 5 == 0).await;
+                wait_cancel(ctx, seed % 5 == 0, seed / 5 + i as u64).await;
                 yields(r.gen_range(0..3)).await;
                 Err("e3".to_string())
             }
@@ -104,31 +117,64 @@ fn task<'env>(ctx: &'env ctx::Ctx, s: &'env scope::Scope<'env, String>, prog: Ar
     })
 }
 
+/// the scope under test, run under the caller's context `parent`
+async fn inner(parent: &ctx::Ctx, p2: Arc<Prog>, fin2: Arc<AtomicUsize>, seed: u64, body_yields: u32) -> Result<(), String> {
+    scope::run!(parent, |ctx, s| async move {
+        for (j, t) in p2.tasks.iter().enumerate() {
+            if t.2 == 0 {
+                let fut = task(ctx, s, p2.clone(), j, fin2.clone(), seed);
+                if t.1 {
+                    s.spawn(fut);
+                } else {
+                    s.spawn_bg(fut);
+                }
+            }
+        }
+        yields(body_yields).await;
+        if p2.body == "ok" { Ok(()) } else { Err("e0".to_string()) }
+    })
+    .await
+}
+
+/// `outer = TRUE` in Scope.tla stands for every way the caller's context can end while the scope runs; the shapes rotate with the seed:
+/// 0 a deadline under a deadline-less parent, 1 a TIGHTER deadline under a parent with a far deadline, 2 a far deadline under a parent whose
+/// own deadline passes (cascade), 3 the context of an enclosing scope that terminates.
 async fn run_prog(prog: Arc<Prog>, seed: u64) -> (String, usize) {
     let clock = ctx::RealClock;
     let root = ctx::test_root(&clock);
     let mut r = rand::rngs::StdRng::seed_from_u64(seed);
-    let parent = if prog.outer { root.with_timeout(time::Duration::microseconds(r.gen_range(0..300))) } else { root.with_deadline(time::Deadline::Infinite) };
+    let short = time::Duration::microseconds(r.gen_range(0..300));
+    let hour = time::Duration::seconds(3600);
+    let shape = if prog.outer { (seed / 7) % 4 } else { 9 };
+    let parent = match shape {
+        0 => root.with_timeout(short),
+        1 => root.with_timeout(hour).with_timeout(short),
+        2 => root.with_timeout(short).with_timeout(hour),
+        _ => root.with_deadline(time::Deadline::Infinite),
+    };
     let fin = Arc::new(AtomicUsize::new(0));
     let fin2 = fin.clone();
     let p2 = prog.clone();
+    let body_yields = r.gen_range(0..6);
     let h = tokio::spawn(async move {
-        let res: Result<(), String> = scope::run!(&parent, |ctx, s| async move {
-            for (j, t) in p2.tasks.iter().enumerate() {
-                if t.2 == 0 {
-                    let fut = task(ctx, s, p2.clone(), j, fin2.clone(), seed);
-                    if t.1 {
-                        s.spawn(fut);
-                    } else {
-                        s.spawn_bg(fut);
-                    }
-                }
-            }
-            yields(r.gen_range(0..6)).await;
-            if p2.body == "ok" { Ok(()) } else { Err("e0".to_string()) }
+        if shape != 3 {
+            return inner(&parent, p2, fin2, seed, body_yields).await;
+        }
+        // the scope under test runs in a background task of an enclosing scope whose only main task returns after a moment
+        let slot: Arc<std::sync::Mutex<Option<Result<(), String>>>> = Arc::new(std::sync::Mutex::new(None));
+        let slot2 = slot.clone();
+        let _: Result<(), String> = scope::run!(&parent, |octx, os| async move {
+            os.spawn_bg(async move {
+                let res = inner(octx, p2, fin2, seed, body_yields).await;
+                *slot2.lock().unwrap() = Some(res);
+                Ok(())
+            });
+            tokio::time::sleep(std::time::Duration::from_micros(short.whole_microseconds() as u64)).await;
+            Ok(())
         })
         .await;
-        res
+        let res = slot.lock().unwrap().take();
+        res.unwrap_or(Err("inner_scope_result_missing".to_string()))
     });
     let out = match h.await {
         Ok(Ok(())) => "ok".to_string(),
@@ -152,6 +198,7 @@ fn main() {
     let rt = tokio::runtime::Builder::new_multi_thread().worker_threads(4).enable_all().build().unwrap();
     let mut rep = Report::default();
     let mut skipped = 0u64;
+    let mut hung = false;
     let mut outcomes_seen: BTreeSet<(String, String)> = BTreeSet::new();
     for (k, (pv, outs)) in allowed.iter() {
         if outs.contains("hang") {
@@ -177,7 +224,8 @@ fn main() {
             let tag = json!({"prog": pv, "seed": s, "allowed": outs});
             match res {
                 Err(_) => {
-                    rep.fail("scope_hang", "scope::run! did not return within 5 s, nor within 90 s when run again, although every task of the program can finish (a task is not joined, or cancellation does not reach a waiting task)", tag);
+                    rep.fail("scope_hang", "scope::run! did not return within 5 s, nor within 90 s when run again, although every task of the program can finish (a task is not joined, or a cancellation / deadline of the caller's context does not reach a waiting task)", tag);
+                    hung = true;
                     break;
                 }
                 Ok((out, finished)) => {
@@ -193,7 +241,7 @@ fn main() {
                 }
             }
         }
-        if rep.failures.len() >= 10 {
+        if rep.failures.len() >= 10 || hung {
             break;
         }
         if rep.distinct % 211 == 1 {
